@@ -1,2 +1,2 @@
-import Driver.Util
 import Driver.Paginate
+import Driver.Util
